@@ -23,6 +23,11 @@ theorem lin_sound (P : Prog) (hw : P.WF) (h : checkCfg P = .ok ()) : Good P := b
   rintro b ⟨bs, hwk⟩
   exact static_ok C.toPreCert (walk_blocks hw hwk)
 
+/-- The same, in terms of what the line-protocol driver evaluates on every extracted CFG:
+    the executable shape check `wfb` and the executable verdict `accepts`. -/
+theorem lin_sound_exec (P : Prog) (hw : P.wfb = true) (h : accepts P = true) : Good P :=
+  lin_sound P (wf_of_wfb hw) (accepts_iff.mp h)
+
 /-- every place of the program is a variable that is its own single leaf (no tuple / struct
     typed variables, no field access): the first stage of the design -/
 def Place.IsVar (p : Place) : Prop := p.isLeaf = true ∧ ∃ x, p.leaves = [x] ∧ p.var = some x
